@@ -709,6 +709,11 @@ func vfNonTrivialProd(id string, run *vfProdRun, r *vfcore.Rec, failed bool, fir
 				seen[k] = true
 			}
 		}
+	case "C18":
+		// a message retried at least once
+		if failed {
+			r.NonTrivial("")
+		}
 	case "C16":
 		// a size within +-8 bytes of a limit, or >=2 requests forced by a limit, or a lone-message flush probe that had to wait
 		near := false
@@ -739,6 +744,76 @@ func vfNonTrivialProd(id string, run *vfProdRun, r *vfcore.Rec, failed bool, fir
 func TestVF_C01(t *testing.T) { vfcore.Main(t, vfProdSpec("C01", "C01", vfOracleC01)) }
 func TestVF_C02(t *testing.T) { vfcore.Main(t, vfProdSpec("C02", "C02", vfOracleC02)) }
 func TestVF_C04(t *testing.T) { vfcore.Main(t, vfProdSpec("C04", "C04", vfOracleC04)) }
+// ------------------------------------------------------------------------------------ C18 (producer half)
+
+func vfOracleC18Prod(run *vfProdRun) *vfcore.Failure {
+	c := run.c
+	if !run.created {
+		return nil
+	}
+	n := len(c.Conf.Interceptors)
+	want := make([]int, n)
+	for i := range want {
+		want[i] = i
+	}
+	seen := map[int][]int{}
+	for _, ic := range run.intercepts {
+		if ic.Idx < 0 {
+			return run.fail("interceptor-saw-stranger", "interceptor %d was invoked for a message the application did not submit (retries=%d flags=%d)", ic.Who, ic.Retries, ic.Flags)
+		}
+		if ic.Retries != 0 {
+			return run.fail("interceptor-on-retry", "interceptor %d was invoked for message %d on a retry pass (retries=%d)", ic.Who, ic.Idx, ic.Retries)
+		}
+		seen[ic.Idx] = append(seen[ic.Idx], ic.Who)
+	}
+	for _, idx := range run.submitted {
+		if fmt.Sprint(seen[idx]) != fmt.Sprint(want) {
+			return run.fail("interceptor-invocations", "message %d was seen by interceptors %v, expected exactly once each in configuration order %v", idx, seen[idx], want)
+		}
+	}
+	// one application of each mutation is visible in what the brokers stored
+	wantHdr, wantMut := 0, 0
+	for _, k := range c.Conf.Interceptors {
+		switch k {
+		case "hdr":
+			wantHdr++
+		case "mut":
+			wantMut++
+		}
+	}
+	v := run.view()
+	for key, log := range v.logs {
+		for i := range log {
+			id := vfIdentOf(&log[i])
+			if id < 0 || id >= len(c.Msgs) {
+				continue
+			}
+			if log[i].Magic == 2 {
+				got := 0
+				for _, h := range log[i].Headers {
+					if string(h.K) == "ic" {
+						got++
+					}
+				}
+				if got != wantHdr {
+					return run.fail("interceptor-mutation-count", "%s offset %d (message %d) carries %d interceptor headers, expected %d", key, log[i].Offset, id, got, wantHdr)
+				}
+			}
+			if c.Msgs[id].ValKind == 0 {
+				base := len(vfMsgValue(id, &c.Msgs[id]))
+				if len(log[i].Value)-base != wantMut {
+					return run.fail("interceptor-mutation-count", "%s offset %d (message %d): value grew by %d bytes, expected %d (one per mutating interceptor)", key, log[i].Offset, id, len(log[i].Value)-base, wantMut)
+				}
+			}
+		}
+	}
+	return nil
+}
+
+func TestVF_C18_Producer(t *testing.T) {
+	vfcore.Main(t, vfProdSpec("C18", "C18", vfOracleC18Prod, vfOracleC01))
+}
+
 func TestVF_C16(t *testing.T) { vfcore.Main(t, vfProdSpec("C16", "C16", vfOracleC16)) }
 func TestVF_C05(t *testing.T) {
 	vfcore.Main(t, vfProdSpec("C05", "C05", vfOracleC05, vfOracleC01))
